@@ -273,6 +273,10 @@ DIRECTED = [
     # two actors of the failed host blocked on the same comm: both must be killed (the first kill finishes the comm of the second)
     ("same-host-comm", _sc(*TWO, actors=[(1, ["put m 1e5", "sleep 1"]), (1, ["get m", "sleep 1"]), (0, ["sleep 2"])]),
      _runs("sh", [[_f("H", 1, 0.0)], [_f("H", 1, 1e-6)]], paths="TPA"), ("hooks",)),
+    # a blocking get that ends with an exception, followed by a wait_any / test on something still running
+    ("call-after-failed-call", _sc(*TWO, actors=[(0, ["aexec 0 3e9", "get m", "waitany 0"]), (1, ["put m 1e6"]), (0, ["aexec 0 3e9", "get n", "test 0", "wait 0"]),
+                                                 (1, ["put n 1e6"])]),
+     _runs("cf", [[_f("L", 0, 0.5)]], paths="AT"), ("hooks",)),
     # detached send not yet matched when its source host fails; a get comes later
     ("detached-leftover", _sc(*TWO, actors=[(0, ["dput m 1e6", "sleep 5"]), (1, ["sleep 1", "get m"])]),
      _runs("dl", [[_f("H", 0, 0.5)]], paths="AT"), ("hooks",)),
